@@ -545,7 +545,7 @@ package server
 //@ holdslock
 //@ requires req != nil && 1 <= req.ReplicationFactor && req.ReplicationFactor <= 17 && lc.wal != nil && lc.db != nil && lc.log != nil && lc.ctx != nil
 //@ requires as(lc.wal, *wal.wal).readLatency != nil && as(lc.wal, *wal.wal).lastSyncedOffset.v < 4611686018427387904
-//@ assume at call ReadCommitOffset#0: result1 == nil ==> -1 <= result0 && result0 <= lc.leaderElectionHeadEntryId.Offset && lc.leaderElectionHeadEntryId.Offset < 4611686018427387904 because "the stored commit offset never exceeds the log head of the same node (entries are applied from the log: C07/C09), offsets are below 2^62"
+//@ assume at call ReadCommitOffset#0: result1 == nil ==> -1 <= result0 && result0 <= lc.leaderElectionHeadEntryId.Offset && lc.leaderElectionHeadEntryId.Offset < 4611686018427387904 because "the stored commit offset never exceeds the log head of the same node (entries are applied from the log: C07/C09), offsets are below 2^62. KNOWN NOT TO HOLD on a node whose log is empty after it has just installed a snapshot: its log head is -1 while the database is at the offset of the snapshot (NewTerm then reports head -1 and a leader elected in that state hands out offsets from 0 again) - outside the scope of this proof, demonstrated by a sub-agent probe, DESIGN 0.3"
 //@ loop 0 invariant lc.term == old(lc.term) && lc.status == 1 && lc.quorumAckTracker != nil && lc.leaderElectionHeadEntryId != nil && lc.log != nil
 //@ loop 0 invariant lc.db != nil && lc.wal != nil && lc.sessionManager != nil && as(lc.wal, *wal.wal).readLatency != nil && as(lc.wal, *wal.wal).lastSyncedOffset.v < 4611686018427387904
 //@ ensures lc.term == old(lc.term)
